@@ -282,7 +282,20 @@ def c01c(tree, ob):
     # the START set is the only thing controlled: START must be set on every path where length==0 (if-form)
     scond = fv.node(sst)
     # END iff cumulative == total after the advance
-    if not fv.has(est, 'self._tx_length == self._tx_tmp.total_length', True):
+    short_read = fv.has(est, 'len({}) < self._send_segment_size'.format(dname), True)
+    if short_read:
+        # alternative idiom: END on a short read.  Correct only if a transfer whose octets are all sent but which has
+        # not sent END yet always gets another (empty) segment: no path for an active transfer may return without sending.
+        conds = [n for n in fv.cfg.nodes if n.kind == 'cond' and norm.atom(n.ast) == ('self._tx_tmp is None', True)]
+        cuts = {(c.idx, s.idx, lab) for c in conds for (s, lab) in c.succ if lab is True}
+        sends = {fv.node(c) for c in method_calls(func, 'send_xfer_data', 'self')}
+        stuck = fv.cfg.exit in fv.cfg.reachable([fv.cfg.entry], avoid=sends, avoid_edges=cuts, include_exc=False)
+        if stuck or not conds:
+            ob.violate(SESS, fv.qual, src(est), 'END is decided by a short read, but an active transfer can return without sending: a bundle whose length is an exact '
+                       'multiple of the segment size never gets its END segment', est)
+        else:
+            ob.site(SESS, est, 'END on a short read; an active transfer always sends (a full final segment is followed by an empty END segment)')
+    elif not fv.has(est, 'self._tx_length == self._tx_tmp.total_length', True):
         ob.violate(SESS, fv.qual, src(est), 'END is not conditional on cumulative == total length', est)
     elif not fv.dominates(adv, est)[0]:
         ob.violate(SESS, fv.qual, src(est), 'END is decided before the cumulative length was advanced', est)
